@@ -1,6 +1,6 @@
 // recover: crash-point recoveries of the REAL engine (properties C09 / C10, stage 2: the resumed run).
 //
-//	recover -plans 40 -tier quick -out cases.jsonl [-from i] [-only i] [-double 5] [-file 0] [-kills 0] [-workers w]
+//	recover -plans 40 -tier quick -out cases.jsonl [-from i] [-only i] [-double 5] [-doublesmall 0] [-file 0] [-kills 0] [-workers w]
 //
 // For every generated plan (deterministic function of VERIF_SEED, tier and index):
 //   - run it uninterrupted on a fresh in-memory sqlite vault behind a wrapper that logs every Update* and reads the
@@ -488,7 +488,7 @@ func pickPrefixes(n int, r *core.Rand) []int {
 
 // childPlan runs plan idx and every recovery from prefix `from` on. Exit code 4: a recovery hung (the image is kept
 // in hangDir as a file-backed vault; the last line names it); the parent continues with a fresh child.
-func childPlan(idx, from int, tier string, doublePct, filePct int, out, tmp string, attempt int) {
+func childPlan(idx, from int, tier string, doublePct, doubleSmall, filePct int, out, tmp string, attempt int) {
 	f0, err := os.OpenFile(out, os.O_CREATE|os.O_WRONLY|os.O_APPEND, 0644)
 	if err != nil {
 		fmt.Fprintln(os.Stderr, err)
@@ -531,7 +531,7 @@ func childPlan(idx, from int, tier string, doublePct, filePct int, out, tmp stri
 		}
 		id := fmt.Sprintf("rec-%d-k%d", idx, k)
 		rk := sel.Fork(uint64(1000 + k))
-		double := rk.Intn(100) < doublePct
+		double := rk.Intn(100) < doublePct || len(o.snaps) <= doubleSmall
 		dir := ""
 		if rk.Intn(100) < filePct {
 			dir = filepath.Join(tmp, fmt.Sprintf("store-%d-%d", idx, k))
@@ -717,13 +717,13 @@ func dget(c core.Case, k string) any {
 func isHang(c core.Case) bool { b, _ := dget(c, "hang").(bool); return b }
 
 // onePlan drives the children of one plan and returns its cases in order.
-func onePlan(idx int, tier string, doublePct, filePct int, tmp string) []core.Case {
+func onePlan(idx int, tier string, doublePct, doubleSmall, filePct int, tmp string) []core.Case {
 	var all []core.Case
 	from := 1
 	for attempt := 0; attempt < 40; attempt++ {
 		out := filepath.Join(tmp, fmt.Sprintf("plan-%d-a%d.jsonl", idx, attempt))
 		code, to := runChild([]string{"-child-plan", fmt.Sprint(idx), "-from", fmt.Sprint(from), "-tier", tier,
-			"-double", fmt.Sprint(doublePct), "-file", fmt.Sprint(filePct), "-out", out, "-tmp", tmp, "-attempt", fmt.Sprint(attempt)},
+			"-double", fmt.Sprint(doublePct), "-doublesmall", fmt.Sprint(doubleSmall), "-file", fmt.Sprint(filePct), "-out", out, "-tmp", tmp, "-attempt", fmt.Sprint(attempt)},
 			10*time.Minute)
 		cs := readCases(out)
 		os.Remove(out)
@@ -872,6 +872,7 @@ func main() {
 	only := flag.String("only", "", "comma separated plan indices (replay)")
 	tier := flag.String("tier", "quick", "quick|thorough (shape sizes)")
 	double := flag.Int("double", 5, "percentage of recoveries whose own write prefixes are crash points again")
+	doubleSmall := flag.Int("doublesmall", 0, "runs with at most this many writes: EVERY recovery's write prefixes are crash points again")
 	file := flag.Int("file", 0, "percentage of recoveries on a file-backed vault")
 	kills := flag.Int("kills", 0, "real SIGKILLs of a child running a plan on a file-backed vault")
 	out := flag.String("out", "-", "output file (JSONL)")
@@ -880,7 +881,7 @@ func main() {
 
 	if *childPlanF >= 0 {
 		runtime.GOMAXPROCS(4)
-		childPlan(*childPlanF, *from, *tier, *double, *file, *out, *tmpF, *attemptF)
+		childPlan(*childPlanF, *from, *tier, *double, *doubleSmall, *file, *out, *tmpF, *attemptF)
 		return
 	}
 	if *childRerunF != "" {
@@ -947,7 +948,7 @@ func main() {
 					i := j.pos - len(idx)
 					results[j.pos] = killRound(i, *from+i%max(1, len(idx)), *tier, tmp)
 				} else {
-					results[j.pos] = onePlan(idx[j.pos], *tier, *double, *file, tmp)
+					results[j.pos] = onePlan(idx[j.pos], *tier, *double, *doubleSmall, *file, tmp)
 				}
 			}
 		}()
